@@ -5,7 +5,7 @@
    property (step).  hist is the path to the state (hidden by the VIEW): with PrintPaths the model
    prints one shortest path per distinct state; the driver replays them on the real program. *)
 EXTENDS LeaderboardProps, TLC, Json
-CONSTANTS NTraders, Vols, Dts, Depth, Start, End0, Thr, Ext, Cap, Win, Inc, Odd, PrintPaths
+CONSTANTS NTraders, Vols, Dts, Depth, Start, End0, Thr, Ext, Cap, Win, Inc, Odd, PrintPaths, NPre
 VARIABLES s, now, hist
 vars == <<s, now, hist>>
 View == <<s, now, Len(hist)>>
@@ -14,13 +14,20 @@ C == [start |-> Start, thr |-> Thr, ext |-> Ext, cap |-> Cap, win |-> Win, inc |
 Zeros == [t \in 1..NTraders |-> 0]
 S0 == [vol |-> Zeros, merged |-> Zeros, last |-> Zeros, board |-> << >>, end |-> End0]
 
-Init == s = S0 /\ now = Start /\ hist = << >>
+(* optional fixed prefix of NPre calls (traders 1..NPre, volumes 2,2,1,1,.. at time Start) so that a
+   few further calls already fill the board; Depth counts the prefix *)
+Call(t, b, a, n, succ, hasev) == [t |-> t, before |-> b, after |-> a, now |-> n, success |-> succ, hasev |-> hasev]
+Prefix == [k \in 1..NPre |-> Call(k, 0, (NPre - k + 2) \div 2, Start, TRUE, TRUE)]
+RECURSIVE Run(_, _)
+Run(p, k) == IF k = 0 THEN S0
+             ELSE Trade(C, Run(p, k - 1), p[k].t, p[k].before, p[k].after, p[k].now, p[k].success, p[k].hasev)
+Init == s = Run(Prefix, NPre) /\ now = Start /\ hist = Prefix
 
 Step(t, b, a, dt, succ, hasev) ==
   /\ Len(hist) < Depth
   /\ now' = now + dt
   /\ s' = Trade(C, s, t, b, a, now', succ, hasev)
-  /\ hist' = Append(hist, [t |-> t, before |-> b, after |-> a, now |-> now', success |-> succ, hasev |-> hasev])
+  /\ hist' = Append(hist, Call(t, b, a, now', succ, hasev))
 
 Increase == \E t \in 1..NTraders, v \in Vols, dt \in Dts : Step(t, 0, v, dt, TRUE, TRUE)
 (* the ignored / differently counted shapes: decrease, failed order, no trade event, zero volume *)
@@ -33,10 +40,10 @@ OddCall  == /\ Odd
 Next == Increase \/ OddCall
 Spec == Init /\ [][Next]_vars
 
-StateMon == StateMons(s) /\ AllListedWhileNotFull(s)
+StateMon == StateMons(s)
 StepMon  == [][LET h == hist'[Len(hist')]
                    e == [pre |-> s, post |-> s', now |-> h.now, c |-> C]
                IN MonEndNotEarlier(e) /\ MonEndCapped(e)]_vars
 (* printed once per distinct state (TLC evaluates invariants on unseen states only) *)
-PathOut == PrintPaths /\ hist # << >> => PrintT("T|" \o ToJson([c |-> C, n |-> NTraders, end0 |-> End0, path |-> hist]))
+PathOut == PrintPaths /\ Len(hist) > NPre => PrintT("T|" \o ToJson([c |-> C, n |-> NTraders, end0 |-> End0, path |-> hist]))
 =============================================================================
